@@ -401,9 +401,12 @@ class ManifestRecursiveLoader:
         (more specific) will always be returned before the Manifests
         for parent directories. The order is otherwise undefined.
         """
+        # NB: the sort is stable, so reverse the load order first: if
+        # a Manifest references another Manifest in the same directory,
+        # the referenced one (always loaded later) must come first
         return sorted(
-                self._iter_unordered_manifests_for_path(
-                    path, recursive=recursive),
+                reversed(list(self._iter_unordered_manifests_for_path(
+                    path, recursive=recursive))),
                 key=lambda kdv: len(kdv[1]),
                 reverse=True)
 
